@@ -1174,6 +1174,55 @@ fn compatibility(case: &Value) {
     println!("{}", serde_json::to_string(&json!({"rejected": verdict.is_some()})).unwrap());
 }
 
+/// Strict lock (C01 relation pinning): a tour that satisfies the lock, a job that is not part of it offered at one leg.
+fn lock_rule(case: &Value) {
+    use vrp_core::construction::features::create_locked_jobs_feature;
+    use vrp_core::models::{Lock, LockDetail, LockOrder, LockPosition};
+    let vehicle = Vehicle {
+        profile: Profile::default(),
+        costs: costs(&Value::Null),
+        dimens: Default::default(),
+        details: vec![VehicleDetail {
+            start: Some(VehiclePlace { location: 0, time: TimeInterval { earliest: Some(0.), latest: None } }),
+            end: Some(VehiclePlace { location: 0, time: TimeInterval { earliest: None, latest: Some(1000.) } }),
+        }],
+    };
+    let driver = Driver { costs: costs(&Value::Null), dimens: Default::default(), details: vec![] };
+    let fleet = Fleet::new(vec![Arc::new(driver)], vec![Arc::new(vehicle)], |_| |_| 0);
+    let labels: Vec<String> = case["tour"].as_array().unwrap().iter().map(|l| l.as_str().unwrap().to_string()).collect();
+    let mk = || Arc::new(Single { places: vec![], dimens: Default::default() });
+    let singles: Vec<Option<Arc<Single>>> = labels.iter().map(|l| if l == "start" || l == "end" { None } else { Some(mk()) }).collect();
+    let locked: Vec<Job> = labels.iter().zip(singles.iter()).filter(|(l, _)| l.starts_with('L')).map(|(_, s)| Job::Single(s.clone().unwrap())).collect();
+    let position = match case["position"].as_str().unwrap() {
+        "any" => LockPosition::Any,
+        "departure" => LockPosition::Departure,
+        "arrival" => LockPosition::Arrival,
+        _ => LockPosition::Fixed,
+    };
+    let holds = case["condition_holds"].as_bool().unwrap();
+    let lock = Lock::new(Arc::new(move |_| holds), vec![LockDetail::new(LockOrder::Strict, position, locked.clone())], false);
+    // the rules are indexed per actor by the lock condition: the tour under test belongs to an actor the lock applies to
+    let lock_for_rules = Lock::new(Arc::new(|_| true), vec![LockDetail::new(LockOrder::Strict, match case["position"].as_str().unwrap() {
+        "any" => LockPosition::Any, "departure" => LockPosition::Departure, "arrival" => LockPosition::Arrival, _ => LockPosition::Fixed }, locked.clone())], false);
+    let feature_rules = create_locked_jobs_feature("locked", &fleet, &[Arc::new(lock_for_rules)], ViolationCode(13)).unwrap();
+    let feature_cond = create_locked_jobs_feature("locked", &fleet, &[Arc::new(lock)], ViolationCode(13)).unwrap();
+    let goal = GoalContextBuilder::with_features(&[feature_rules.clone(), vrp_core::construction::features::create_minimize_tours_feature("t").unwrap()]).unwrap().build().unwrap();
+    let mut rc = RouteContext::new(fleet.actors[0].clone());
+    for s in singles.iter().flatten() {
+        rc.route_mut().tour.insert_last(Activity::new_with_job(s.clone()));
+    }
+    let registry = Registry::new(&fleet, Arc::new(DefaultRandom::default()));
+    let sctx = SolutionContext { required: vec![], ignored: vec![], unassigned: Default::default(), locked: Default::default(), routes: vec![],
+        registry: RegistryContext::new(&goal, registry), state: Default::default() };
+    let p = case["leg"].as_u64().unwrap() as usize;
+    let target = Activity::new_with_job(mk());
+    let actx = ActivityContext { index: p, prev: rc.route().tour.get(p).unwrap(), target: &target, next: rc.route().tour.get(p + 1) };
+    let v_act = feature_rules.constraint.as_ref().unwrap().evaluate(&MoveContext::activity(&sctx, &rc, &actx));
+    let v_locked = feature_cond.constraint.as_ref().unwrap().evaluate(&MoveContext::route(&sctx, &rc, &locked[0]));
+    let v_free = feature_cond.constraint.as_ref().unwrap().evaluate(&MoveContext::route(&sctx, &rc, &Job::Single(mk())));
+    println!("{}", serde_json::to_string(&json!({"rejected": v_act.is_some(), "locked_rejected": v_locked.is_some(), "free_rejected": v_free.is_some()})).unwrap());
+}
+
 /// `Statistic + Statistic` through the public operator.
 fn statistic_sum(case: &Value) {
     use vrp_pragmatic::format::solution::{Statistic, Timing};
@@ -1229,6 +1278,9 @@ fn main() {
     }
     if case["kind"] == "group_state" {
         return group_state(&case);
+    }
+    if case["kind"] == "lock_rule" {
+        return lock_rule(&case);
     }
     if case["kind"] == "skills" {
         return skills(&case);
